@@ -3,6 +3,8 @@
 mod conn;
 mod corpus;
 mod csvs;
+mod extract;
+mod trainer;
 mod gen;
 mod image;
 mod replay;
@@ -459,6 +461,20 @@ fn main() {
             let n: usize = args[3].parse().unwrap();
             conn::run_scorer(seed, n, &mut out);
         }
+        "extract" => {
+            let seed: u64 = args[2].parse().unwrap();
+            let n: usize = args[3].parse().unwrap();
+            extract::run(seed, n, &mut out);
+        }
+        "train" => match args[2].as_str() {
+            "replay" => trainer::replay(&mut out),
+            "probes" => trainer::probes(&mut out),
+            mode => {
+                let seed: u64 = args[3].parse().unwrap();
+                let n: usize = args[4].parse().unwrap();
+                trainer::run(mode, seed, n, &mut out);
+            }
+        },
         "corpus" => {
             let seed: u64 = args[2].parse().unwrap();
             let n: usize = args[3].parse().unwrap();
